@@ -236,6 +236,11 @@ class FinishedPdu(AbstractFileDirectiveBase):
             raise BytesTooShortError(
                 finished_pdu.pdu_file_directive.packet_len, len(data)
             )
+        # Only the octets of this PDU without the CRC16 trailer hold parameters and TLVs.
+        end_of_params = finished_pdu.pdu_file_directive.packet_len
+        if finished_pdu.pdu_file_directive.pdu_conf.crc_flag == CrcFlag.WITH_CRC:
+            end_of_params -= 2
+        data = data[:end_of_params]
         current_idx = finished_pdu.pdu_file_directive.header_len
         if current_idx + 1 > len(data):
             raise BytesTooShortError(current_idx + 1, len(data))
@@ -247,10 +252,6 @@ class FinishedPdu(AbstractFileDirectiveBase):
         )
         finished_pdu._params = params
         current_idx += 1
-        # Only the octets of this PDU without the CRC16 trailer hold TLVs.
-        end_of_params = finished_pdu.packet_len
-        if finished_pdu.pdu_file_directive.pdu_conf.crc_flag == CrcFlag.WITH_CRC:
-            end_of_params -= 2
         if end_of_params > current_idx:
             finished_pdu._unpack_tlvs(rest_of_packet=data[current_idx:end_of_params])
         return finished_pdu
